@@ -841,7 +841,8 @@ def m_slice_first(I, st, fr, args, path, gargs, t):
     if idx == 0:
         return none()
     if getattr(I.opts, 'byte_positions', False) and path.endswith('first'):
-        return some(byte_at(I, st, ln))
+        sv = _slice(I, st, args[0])
+        return some(byte_at(I, st, I.mk(st, 'usize', sv.pos(0), 0, None)))
     return some(_fresh_byte_ref(I, st))
 
 
@@ -878,7 +879,7 @@ def m_read_unaligned(I, st, fr, args, path, gargs, t):
         from .absint import Lanes
         lanes = []
         for j in range(size):
-            ref = byte_at(I, st, I.mk(st, 'usize', padd(p.slice.len.p, pconst(j), -1), 0, None))
+            ref = byte_at(I, st, I.mk(st, 'usize', p.slice.pos(j), 0, None))
             lanes.append(deref(I, st, ref))
         return Lanes(ty, lanes)
     return st.fresh(ty, tag='rd')
@@ -914,6 +915,22 @@ def m_checked_neg(I, st, fr, args, path, gargs, t):
         return some(I.mk(st, ty, p))
     st.note(('overflows', pfreeze(st.norm(p)), ty))
     return none()
+
+
+@model(r'core::num::<impl ' + INT + r'>::wrapping_(neg|abs)')
+def m_wrapping_neg(I, st, fr, args, path, gargs, t):
+    m = re.match(r'core::num::<impl ' + INT + r'>::wrapping_(neg|abs)', path)
+    ty, op = m.group(1), m.group(2)
+    x = args[0]
+    rlo, rhi = INT_RANGES[ty]
+    if op == 'abs' and I.sign_split(st, x.p) > 0:
+        return x
+    p = pneg(x.p)
+    r_ = range_split(st, p, rlo, rhi)
+    if r_ == 'in':
+        return I.mk(st, ty, p)
+    # signed: only MIN wraps (to itself); unsigned: every non-zero value wraps once
+    return I.mk(st, ty, padd(p, pconst((rhi - rlo + 1) * (1 if r_ == 'below' else -1))))
 
 
 @model(r'core::num::<impl ' + INT + r'>::checked_(div|rem|div_euclid|rem_euclid)')
@@ -1325,7 +1342,45 @@ def m_slice_get(I, st, fr, args, path, gargs, t):
         key = ('elem', len(st.pframes), id(el))
         st.pframes[key] = Frame(None, None, {0: el})
         return some(Ref(key, 0, ()))
+    if isinstance(v, SliceVal) and isinstance(idx, Agg) and idx.kind.endswith('RangeTo') and len(idx.fields) == 1 and isinstance(idx.fields[0], Int):
+        # s.get(..n): the first n elements if there are that many
+        n = idx.fields[0]
+        d = padd(v.len.p, n.p, -1)
+        if st.decide(d, [NONNEG, NEG]) == 1:
+            return none()
+        return some(SliceVal(n, v.tag, st.norm(padd(v.tail or {}, d))))
     raise Stop('slice get on %r' % (v,))
+
+
+@model(r'core::array::<impl core::convert::TryFrom<&\[T\]> for \[T; N\]>::try_from|core::array::<impl core::convert::TryFrom<&.*\[T\]> for \[T; N\]>::try_from')
+def m_array_try_from_slice(I, st, fr, args, path, gargs, t):
+    v = deref(I, st, args[0])
+    if not isinstance(v, SliceVal):
+        raise Stop('array try_from %r' % (v,))
+    n = None
+    for g in gargs:
+        if str(g).isdigit():
+            n = int(g)
+    lo, hi = st.itv(v.len)
+    if n is None or lo != hi:
+        raise Stop('array try_from a slice of unknown length')
+    if lo != n:
+        return Agg(RESULT, 1, (Agg('core::array::TryFromSliceError', 0, (UNIT,)),))
+    if getattr(I.opts, 'byte_positions', False):
+        els = [deref(I, st, byte_at(I, st, I.mk(st, 'usize', v.pos(j), 0, None))) for j in range(n)]
+    else:
+        els = [st.fresh('u8', 0, 255, 'byte') for _ in range(n)]
+    return Agg(RESULT, 0, (Agg('array', None, tuple(els)),))
+
+
+@model(r'core::num::<impl u(16|32|64|128)>::from_le_bytes')
+def m_from_le_bytes(I, st, fr, args, path, gargs, t):
+    from .absint import Lanes
+    v = args[0]
+    ty = 'u' + re.search(r'<impl u(\d+)>', path).group(1)
+    if isinstance(v, Agg) and v.kind == 'array' and all(isinstance(x, Int) for x in v.fields):
+        return Lanes(ty, v.fields)
+    raise Stop('from_le_bytes of %r' % (v,))
 
 
 @model(r'core::option::Option::<&T>::(copied|cloned)|core::option::Option::<&mut T>::(copied|cloned)')
